@@ -293,17 +293,22 @@ func bundle(p []string) (res string) {
 	return "wrong:" + hlib.Canon(v)
 }
 
+// valid makes every observable valid UTF-8 (raw byte-array output may not be); ./check reads the results as text.
+func valid(r hlib.Runner) hlib.Runner {
+	return func(p []string) string { return strings.ToValidUTF8(r(p), "\uFFFD") }
+}
+
 func init() {
-	hlib.Register("reprrt", reprrt)
-	hlib.Register("repr", func(p []string) string {
+	hlib.Register("reprrt", valid(reprrt))
+	hlib.Register("repr", valid(func(p []string) string {
 		v, err := hlib.EvalSrc(p[0])
 		if err != nil {
 			return "error"
 		}
 		return fu.Repr(v)
-	})
-	hlib.Register("bundlecfg", bundlecfg)
-	hlib.Register("bundle", bundle)
+	}))
+	hlib.Register("bundlecfg", valid(bundlecfg))
+	hlib.Register("bundle", valid(bundle))
 }
 
 func main() { hlib.Main() }
